@@ -670,6 +670,7 @@ func AllCells() []Cell {
 	cs = append(cs, LineCommentCells()...)
 	cs = append(cs, CRCells()...)
 	cs = append(cs, CRLFCells()...)
+	cs = append(cs, GoCRCells()...)
 	return cs
 }
 
